@@ -4,12 +4,14 @@ import common
 from common import quiet
 
 PROP = 'C07'
-LEAN_MODULES = ['XyzProofs.Props.C07', 'XyzProofs.Refine.Batch']
+LEAN_MODULES = ['XyzProofs.Props.C07', 'XyzProofs.Refine.Batch', 'XyzProofs.Refine.Lifecycle', 'XyzProofs.Props.C04Lifecycle']
 THEOREMS = ['Batch.c07_resow_count', 'Batch.c07_partition', 'Batch.c07_nonempty', 'Batch.c07_batchsize', 'Batch.c07_num_batches',
             'Batch.c07_reported_count', 'Batch.sumSizes_eq',
-            'Refine.chooseBatch_refines', 'Refine.sowerCall_refines', 'Refine.sowerExit_refines', 'Refine.sower_refines']
+            'Refine.chooseBatch_refines', 'Refine.sowerCall_refines', 'Refine.sowerExit_refines', 'Refine.sower_refines',
+            'Lc.sowCombos_refines', 'Lc.sowCases_refines', 'Lc.saveInfo_refines', 'Lc.c04_lc_sow_combos_ok', 'Lc.c04_lc_sow_cases_ok', 'Lc.c06_lc_sow_constants_win']
 ANCHORS = ['nbFromBs', 'capNb', 'bsOfNb', 'remOfNb', 'bothOk', 'sowerGetsExtra', 'sowerFlush',
-           'chooseBatchSettings', 'sowerInit', 'sowerCall', 'sowerExit']
+           'chooseBatchSettings', 'sowerInit', 'sowerCall', 'sowerExit',
+           'saveInfoLc', 'sowCasesLc', 'sowCombosLc']
 RULE = ("each case = (N settings as a grid or a case list, batchsize s in 1..N+1 or num_batches k in 1..N+2 or neither, "
         "shuffle off/seed, optional Runner constants/resources): the real Crop is sown, its batch files unpickled and "
         "compared with the Lean Sower model and with the call log of a direct run; quick enumerates all (N, s|k) for "
